@@ -305,3 +305,116 @@ def trivially_empty_twin(bases):
         return False
     xs = ns + ds
     return all(gcd(xs[i], xs[j]) == 1 for i in range(len(xs)) for j in range(i + 1, len(xs)))
+
+
+# ======================================================================================
+# C07: kernel certificates over a field (Fractions, or nested-pair tower elements with ops)
+class QOps:
+    zero = Fraction(0)
+    one = Fraction(1)
+
+    @staticmethod
+    def add(x, y):
+        return x + y
+
+    @staticmethod
+    def sub(x, y):
+        return x - y
+
+    @staticmethod
+    def mul(x, y):
+        return x * y
+
+    @staticmethod
+    def inv(x):
+        return 1 / x
+
+    @staticmethod
+    def is_zero(x):
+        return x == 0
+
+
+def rref_transform(M, ops):
+    """M: m x N over a field.  -> (S (m x m, invertible), pivots, rank) with S*M in reduced row
+    echelon form (zero rows last)."""
+    m = len(M)
+    N = len(M[0]) if M else 0
+    A = [list(r) for r in M]
+    S = [[ops.one if i == j else ops.zero for j in range(m)] for i in range(m)]
+    piv = []
+    r = 0
+    for c in range(N):
+        if r >= m:
+            break
+        p = next((i for i in range(r, m) if not ops.is_zero(A[i][c])), None)
+        if p is None:
+            continue
+        A[r], A[p] = A[p], A[r]
+        S[r], S[p] = S[p], S[r]
+        inv = ops.inv(A[r][c])
+        A[r] = [ops.mul(inv, x) for x in A[r]]
+        S[r] = [ops.mul(inv, x) for x in S[r]]
+        for i in range(m):
+            if i != r and not ops.is_zero(A[i][c]):
+                f = A[i][c]
+                A[i] = [ops.sub(x, ops.mul(f, y)) for x, y in zip(A[i], A[r])]
+                S[i] = [ops.sub(x, ops.mul(f, y)) for x, y in zip(S[i], S[r])]
+        piv.append(c)
+        r += 1
+    return S, piv, r
+
+
+def invert(S, ops):
+    m = len(S)
+    T, piv, r = rref_transform(S, ops)
+    if r != m:
+        raise ValueError("singular")
+    return T  # T * S = I
+
+
+def kernel_certificate(Ev, ops):
+    """Ev: m x N (one row per unknown).  -> (K (t x m), P (m x t), Q (N x m)) with
+    K*Ev = 0 and P*K + Ev*Q = I_m  (Lattice.check_kernel_cert)."""
+    m = len(Ev)
+    N = len(Ev[0]) if Ev else 0
+    S, piv, rho = rref_transform(Ev, ops)
+    K = S[rho:]
+    Sinv = invert(S, ops)
+    P = [row[rho:] for row in Sinv]
+    Q = [[ops.zero] * m for _ in range(N)]
+    for j, c in enumerate(piv):
+        Q[c] = list(S[j])
+    return K, P, Q
+
+
+def nice_kernel(K, P, ops_scale):
+    """rescale each kernel row to coprime integers (rational case); P's columns are rescaled
+    inversely so that P*K is unchanged"""
+    K2, scales = [], []
+    for row in K:
+        den = 1
+        for x in row:
+            den = den * x.denominator // gcd(den, x.denominator)
+        ints = [int(x * den) for x in row]
+        g = 0
+        for x in ints:
+            g = gcd(g, abs(x))
+        g = g or 1
+        first = next((x for x in ints if x), 1)
+        sgn = -1 if first < 0 else 1
+        f = Fraction(den, g) * sgn
+        K2.append([x * f for x in row])
+        scales.append(f)
+    P2 = [[x / f for x, f in zip(row, scales)] for row in P]
+    return K2, P2
+
+
+def mons(k, D):
+    """same order as InvariantComplete.mons"""
+    if k == 0:
+        return [[]]
+    out = []
+    for e in range(D + 1):
+        for rest in mons(k - 1, D - e):
+            out.append([e] + rest)
+    return out
